@@ -34,6 +34,7 @@ def dispatch (req : Json) : Except String Json := do
   | "emd" => handleEmd req
   | "fw_gap" => handleFWGap req
   | "solve" => handleSolve req
+  | "cv" => handleCV req
   | "bp_f" => handleBPF req
   | "mle_f" => handleMLE req
   | "col_check" => handleColCheck req
